@@ -370,6 +370,38 @@ func (w *world) upgrade(from int, height int64, version string, feats [][]interf
 	return txn{w.s.SignTx(msg, w.opts(from, id)), a}
 }
 
+// ---- off-chain noise ---------------------------------------------------------------------------
+// Forged transactions: FromAddress is the rightful owner, the signature carries the owner's public key
+// and junk bytes, and the message hands control to `intruder`.  They are only ever passed to
+// Sim.Noise (CheckTx + the app/simulate query), never delivered and never recorded.
+func (w *world) forged(kind string, owner, intruder int, id int64) []byte {
+	o := w.opts(owner, id)
+	if id%2 == 0 {
+		o.CorruptSig = true
+	} else {
+		o.BadSignBytes = true
+	}
+	var msg sdk.ProtoMsg
+	switch kind {
+	case "acl": // every key of the current ACL goes to the intruder
+		acl := w.s.App.VerifGovKeeper().GetACL(w.s.Ctx())
+		na := govTypes.ACL(append([]govTypes.ACLPair{}, acl...))
+		for _, p := range acl {
+			na.SetOwner(p.Key, w.s.Addr(intruder))
+		}
+		msg = &govTypes.MsgChangeParam{FromAddress: w.s.Addr(owner), ParamKey: "gov/acl", ParamVal: codecOf().MustMarshalJSON(na)}
+	case "daoOwner":
+		msg = &govTypes.MsgChangeParam{FromAddress: w.s.Addr(owner), ParamKey: "gov/daoOwner", ParamVal: codecOf().MustMarshalJSON(w.s.Addr(intruder))}
+	case "upgrade":
+		msg = &govTypes.MsgUpgrade{Address: w.s.Addr(owner), Upgrade: govTypes.Upgrade{Height: 1, Version: "FEATURE", Features: []string{"F1:3", "F2:3"}}}
+	case "transfer":
+		msg = &govTypes.MsgDAOTransfer{FromAddress: w.s.Addr(owner), ToAddress: w.s.Addr(intruder), Amount: sdk.NewInt(1000), Action: govTypes.DAOTransferString}
+	default:
+		hx.Fatal("unknown forged kind %q", kind)
+	}
+	return w.s.SignTx(msg, o)
+}
+
 func keyIdxOf(s *chainsim.Sim, name string) int {
 	for i := range s.Keys {
 		if s.Name(s.Addr(i)) == name {
@@ -411,9 +443,15 @@ func (r *recorder) reset(label string) {
 	r.emit(map[string]interface{}{"ev": "reset", "label": label})
 }
 
-func (r *recorder) block(rep *hx.Report, txs ...txn) {
+func (r *recorder) block(rep *hx.Report, txs ...txn) { r.blockWith(rep, nil, txs...) }
+
+// blockWith: `inBlock` (off-chain noise, not recorded) runs after BeginBlock, before the deliveries.
+func (r *recorder) blockWith(rep *hx.Report, inBlock func(), txs ...txn) {
 	r.w.begin()
 	r.emit(map[string]interface{}{"ev": "BeginBlock"})
+	if inBlock != nil {
+		inBlock()
+	}
 	for _, tx := range txs {
 		res := r.w.s.DeliverTx(tx.bz)
 		rep.Steps++
